@@ -98,14 +98,21 @@ def Param.asString (p : Param) : Res (List Bytes) :=
 
 /-! ### Parameter::set and isDimensionConsistent (Parameter.cpp:232-333) -/
 
-/-- product of the dimensions in `size_t` (wraps modulo 2^64 at every step) -/
+/-- product of the dimensions in `size_t` (wraps modulo 2^64 at every step); used by the writer -/
 def prodU64 (dims : List Nat) : Nat := dims.foldl (fun a d => u64 (a * d)) 1
 
+/-- the overflow-free comparison loop of `isDimensionConsistent` (no dimension is 0 here):
+    refuse as soon as the running product would exceed the data size -/
+def prodMatches (dataSize : Nat) : List Nat → Nat → Bool
+  | [], acc => dataSize == acc
+  | d :: rest, acc => if acc > dataSize / d then false else prodMatches dataSize rest (acc * d)
+
+/-- `Parameter::isDimensionConsistent` (Parameter.cpp:232-249) -/
 def dimConsistent (dataSize : Nat) (dims : List Nat) : Bool :=
-  if dataSize = 0 then
-    dims.length == 0 || prodU64 dims == 0
-  else
-    dataSize == prodU64 dims
+  let hasZero := dims.contains 0
+  if dataSize = 0 then dims.length == 0 || hasZero
+  else if hasZero then false
+  else prodMatches dataSize dims 1
 
 /-- empty `dimension` argument means "one dimension, as long as the data" -/
 def effDims (n : Nat) (dims : List Nat) : List Nat :=
